@@ -1,3 +1,202 @@
-(* C12 (part b) - statements only; filled in below. *)
-From Coq Require Import List.
-From Verif.C12b_Containers Require Import Corr.
+(* C12 (part b) - BytesFilter, Walker, TimeHeap, IndexedStorage, OnChangeMap, SubscriptionManager are equivalent to
+   their abstract models for every operation history and option setting.  Statements only. *)
+From Coq Require Import ZArith NArith Arith List Bool Permutation.
+From Verif.C12b_Containers Require AMap AMapProofs BytesFilter BytesFilterProofs Walker WalkerProofs TimeHeap TimeHeapProofs
+  IndexedStorage IndexedStorageProofs OnChangeMap OnChangeMapProofs SubMgr SubMgrProofs.
+Import ListNotations.
+
+Module BF := BytesFilter. Module BFP := BytesFilterProofs.
+Module WK := Walker. Module WKP := WalkerProofs.
+Module TH := TimeHeap. Module THP := TimeHeapProofs.
+Module IS := IndexedStorage. Module ISP := IndexedStorageProofs.
+Module OC := OnChangeMap. Module OCP := OnChangeMapProofs.
+Module SM := SubMgr. Module SMP := SubMgrProofs.
+
+(* ---------------- BytesFilter: remembers exactly the last N distinct identifiers (N >= 1) ---------------- *)
+(* every output equals the output of the window machine [spec_step] (Add x accepted iff x is not in the window;
+   the window keeps the last n accepted identifiers) *)
+Theorem C12_bytesfilter_refines_window : forall n h, 1 <= n ->
+  snd (BF.run (BF.init n) h) = snd (BF.spec_run n [] h) /\ BF.ids (fst (BF.run (BF.init n) h)) = fst (BF.spec_run n [] h).
+Proof. exact BFP.bf_refines_window. Qed.
+
+(* after any history the filter holds exactly the last n identifiers whose Add returned true; they are distinct;
+   Contains answers membership in that window and Add succeeds iff the identifier is not in it *)
+Theorem C12_bytesfilter_last_n : forall n h, 1 <= n ->
+  let outs := snd (BF.run (BF.init n) h) in
+  let s := fst (BF.run (BF.init n) h) in
+  BF.ids s = BF.lastn n (BF.accepted h outs)
+  /\ NoDup (BF.ids s)
+  /\ (forall x, snd (BF.step s (BF.Contains x)) = BF.OBool (BF.mem x (BF.lastn n (BF.accepted h outs))))
+  /\ (forall x, snd (BF.step s (BF.Add x)) = BF.OBool (negb (BF.mem x (BF.lastn n (BF.accepted h outs))))).
+Proof. exact BFP.bf_remembers_last_n. Qed.
+
+Example C12_bytesfilter_nonvacuous :
+  snd (BF.run (BF.init 2) [BF.Add 1; BF.Add 2; BF.Add 1; BF.Add 3; BF.Contains 1; BF.Contains 2; BF.Contains 3])
+  = [BF.OBool true; BF.OBool true; BF.OBool false; BF.OBool true; BF.OBool false; BF.OBool true; BF.OBool true].
+Proof. exact BFP.bf_example. Qed.
+
+(* ---------------- Walker ---------------- *)
+(* no revisiting, all histories (Push, PushAll, PushFront, Next, StopWalk, Reset, queries): what was yielded since the
+   last Reset plus what is queued contains no element twice and is exactly the set of elements offered since then *)
+Theorem C12_walker_each_pushed_once : forall h,
+  let s := fst (WK.run (WK.init false) h) in
+  let Y := WKP.since_reset h (snd (WK.run (WK.init false) h)) [] in
+  NoDup (Y ++ WK.stack s) /\
+  (forall x, In x (Y ++ WK.stack s) <-> In x (WKP.offered_since_reset h [])) /\
+  (forall x, snd (WK.step s (WK.Pushed x)) = WK.OBool true <-> In x (WKP.offered_since_reset h [])).
+Proof. exact WKP.wk_each_pushed_once. Qed.
+
+Theorem C12_walker_drained : forall h,
+  let s := fst (WK.run (WK.init false) h) in
+  let Y := WKP.since_reset h (snd (WK.run (WK.init false) h)) [] in
+  WK.stack s = [] -> NoDup Y /\ (forall x, In x Y <-> In x (WKP.offered_since_reset h [])).
+Proof. exact WKP.wk_drained. Qed.
+
+(* queue order: without PushFront/Reset the walk is first-in first-out over the first occurrences of the offered
+   elements; with revisiting enabled over all offered elements *)
+Theorem C12_walker_queue_order : forall h, Forall WKP.fifo_op h ->
+  WK.yielded (snd (WK.run (WK.init false) h)) ++ WK.stack (fst (WK.run (WK.init false) h)) = WKP.dedup_first (WK.offered h).
+Proof. exact WKP.wk_queue_order. Qed.
+
+Theorem C12_walker_queue_order_revisit : forall h, Forall WKP.fifo_op h ->
+  WK.yielded (snd (WK.run (WK.init true) h)) ++ WK.stack (fst (WK.run (WK.init true) h)) = WK.offered h.
+Proof. exact WKP.wk_queue_order_revisit. Qed.
+
+Theorem C12_walker_pushfront_front : forall s x, WK.mem x (WK.pushed s) = false ->
+  snd (WK.step (fst (WK.step s (WK.PushFront [x]))) WK.Next) = WK.OElem x.
+Proof. exact WKP.wk_pushfront_front. Qed.
+
+Theorem C12_walker_reset : forall s, fst (WK.step s WK.Reset) = WK.init (WK.revisit s).
+Proof. exact WKP.wk_reset. Qed.
+
+(* D12a (repaired by a fix: commit): the pinned PushFront returned at the first repeated element *)
+Theorem C12_refuted_walker_pushfront_pinned :
+  WK.yielded (snd (WK.run_pinned (WK.init false) [WK.Push 1; WK.PushFront [1; 2]; WK.Next; WK.Next])) = [1]
+  /\ WK.yielded (snd (WK.run (WK.init false) [WK.Push 1; WK.PushFront [1; 2]; WK.Next; WK.Next])) = [2; 1].
+Proof. exact WKP.refuted_pushfront_pinned. Qed.
+
+(* ---------------- TimeHeap ---------------- *)
+(* for every history (any clock readings, any windows): the outputs equal those of the list of live entries from which
+   Average removes the entries whose age is >= the window and reports the sum of the rest mod 2^64 *)
+Theorem C12_timeheap_refines_live_entries : forall h,
+  snd (TH.run TH.init h) = snd (TH.spec_run [] h).
+Proof. intros h. exact (proj1 (THP.th_refines_live_entries h TH.init [] THP.rel_init)). Qed.
+
+(* one window and a clock that does not go backwards: every Average reports the sum (mod 2^64) of the counts added
+   since the last Clear whose age is below the window *)
+Theorem C12_timeheap_windowed_sum : forall w h t0, THP.timed w t0 h -> snd (TH.run TH.init h) = THP.expected w h [].
+Proof. exact THP.th_windowed_sum. Qed.
+
+Example C12_timeheap_nonvacuous :
+  THP.timed 10 0 [TH.Add 0 5; TH.Add 4 7; TH.Average 9 10; TH.Average 12 10; TH.Clear; TH.Add 13 1; TH.Average 13 10]
+  /\ snd (TH.run TH.init [TH.Add 0 5; TH.Add 4 7; TH.Average 9 10; TH.Average 12 10; TH.Clear; TH.Add 13 1; TH.Average 13 10])
+     = [TH.ONone; TH.ONone; TH.OTotal 12; TH.OTotal 7; TH.ONone; TH.ONone; TH.OTotal 1].
+Proof. exact THP.th_example. Qed.
+
+(* D12b (repaired): the pinned Clear kept the running total *)
+Theorem C12_refuted_timeheap_clear_pinned :
+  snd (TH.run_pinned TH.init [TH.Add 0 10; TH.Clear; TH.Average 1 3600]) = [TH.ONone; TH.ONone; TH.OTotal 10]
+  /\ snd (TH.run TH.init [TH.Add 0 10; TH.Clear; TH.Average 1 3600]) = [TH.ONone; TH.ONone; TH.OTotal 0].
+Proof. exact THP.refuted_clear_pinned. Qed.
+
+(* ---------------- IndexedStorage ---------------- *)
+(* for every history: Get/Evict answer like the abstract map index -> storage (fresh storage ids, never reused);
+   ForEach and Clear list exactly the abstract map's entries *)
+Theorem C12_indexedstorage_refines_map : forall h,
+  ISP.Rel (fst (IS.run IS.init h)) (fold_left IS.spec_step h IS.spec_init) /\
+  Forall2 (fun ao x =>
+             (forall r, IS.spec_lookup (fst ao) (snd ao) = Some r -> x = IS.OSid r) /\
+             (snd ao = IS.ForEach \/ snd ao = IS.Clear ->
+              forall idx sid, In (idx, sid) (match x with IS.OEntries l => l | _ => [] end) <-> IS.sp_map (fst ao) idx = Some sid))
+          (combine (ISP.spec_states IS.spec_init h) h) (snd (IS.run IS.init h)).
+Proof. intros h. exact (ISP.is_refines_map h IS.init IS.spec_init ISP.rel_init). Qed.
+
+Example C12_indexedstorage_nonvacuous :
+  snd (IS.run IS.init [IS.Get 1 (Some true); IS.SSet 0 2 7; IS.Evict 1; IS.Get 1 None; IS.Get 1 (Some true); IS.SGet 0 2; IS.SGet 1 2; IS.ForEach])
+  = [IS.OSid (Some 0); IS.ONone; IS.OSid (Some 0); IS.OSid None; IS.OSid (Some 1); IS.OVal (Some 7); IS.OVal None; IS.OEntries [(1, 1)]].
+Proof. exact ISP.is_example. Qed.
+
+(* ---------------- OnChangeMap ---------------- *)
+(* a keyed store for every history, callback setting and callback failure *)
+Theorem C12_onchangemap_keyed_store : forall h s k,
+  AMap.aget k (OC.m (fst (OC.run s h))) = fold_left OCP.store_step h (fun x => AMap.aget x (OC.m s)) k.
+Proof. exact OCP.oc_keyed_store. Qed.
+
+(* the item callbacks mirror every change: with callbacks enabled, the three item callbacks registered and every
+   operation [reported] (changed callback does not fail, Modify callbacks tell the truth), replaying
+   Added/Modified/Deleted rebuilds the map *)
+Theorem C12_onchangemap_callbacks_mirror : forall c h, OCP.item_cbs c -> Forall OCP.reported h ->
+  let s := fst (OC.run (OC.init c) (OC.Enable true :: h)) in
+  forall k, AMap.aget k (OC.replay [] (OC.log s)) = AMap.aget k (OC.m s).
+Proof. exact OCP.oc_callbacks_mirror. Qed.
+
+Theorem C12_onchangemap_changed_sees_contents : forall s o items,
+  In (OC.EvChanged items) (skipn (length (OC.log s)) (OC.log (fst (OC.step s o)))) -> items = OC.m (fst (OC.step s o)).
+Proof. exact OCP.oc_changed_sees_contents. Qed.
+
+Theorem C12_onchangemap_disabled_silent : forall s o, OC.enabled s = false -> OC.log (fst (OC.step s o)) = OC.log s.
+Proof. exact OCP.oc_disabled_silent. Qed.
+
+Example C12_onchangemap_nonvacuous :
+  let c := {| OC.cbChanged := true; OC.cbAdded := true; OC.cbModified := true; OC.cbDeleted := true |} in
+  OCP.item_cbs c /\ Forall OCP.reported [OC.Add 1 5 false false; OC.Modify 1 (Some 6) true false true; OC.Delete 1 false false].
+Proof. split; [repeat split|repeat constructor; discriminate]. Qed.
+
+(* ---------------- SubscriptionManager ---------------- *)
+(* for every history and limit: the global count of a topic is the sum of the clients' counts *)
+Theorem C12_submgr_global_is_sum : forall mx h t,
+  SM.global_count (fst (SM.run (SM.init mx) h)) t = SM.sum_clients (fst (SM.run (SM.init mx) h)) t.
+Proof. exact SMP.sm_global_is_sum. Qed.
+
+Theorem C12_submgr_has_subscribers_is_sum : forall mx h t,
+  let s := fst (SM.run (SM.init mx) h) in
+  snd (fst (SM.step s (SM.HasSubscribers t))) = SM.OBool (0 <? SM.sum_clients s t).
+Proof. exact SMP.sm_has_subscribers_is_sum. Qed.
+
+(* the event log mirrors the state, including forced drops: per client and topic, subscriptions held =
+   #TopicSubscribed - #TopicUnsubscribed; a topic has subscribers iff #TopicAdded = #TopicRemoved + 1 (else equal);
+   a client is connected iff #ClientConnected = #ClientDisconnected + 1 (else equal) *)
+Theorem C12_submgr_events_mirror_state : forall mx h,
+  let s := fst (SM.run (SM.init mx) h) in
+  let es := SM.events (snd (SM.run (SM.init mx) h)) in
+  (forall c t, SM.client_count s c t + SMP.countE (SMP.isUnsub c t) es = SMP.countE (SMP.isSub c t) es) /\
+  (forall t, SMP.hasn t (SM.topics s) + SMP.countE (SMP.isRemoved t) es = SMP.countE (SMP.isAdded t) es) /\
+  (forall c, SMP.hasn c (SM.subs s) + SMP.countE (SMP.isDisc c) es = SMP.countE (SMP.isConn c) es).
+Proof. exact SMP.sm_events_mirror_state. Qed.
+
+(* D12c (repaired): the pinned limit path subtracted a subscription that was never counted *)
+Theorem C12_refuted_limit :
+  let s := fst (SM.run_pinned (SM.init 2) SMP.d12c_history) in
+  SM.client_count s 1 0 = 1 /\ SM.global_count s 0 = 0 /\ SM.sum_clients s 0 = 1.
+Proof. exact SMP.refuted_limit_pinned. Qed.
+
+Example C12_submgr_limit_fixed :
+  let s := fst (SM.run (SM.init 2) SMP.d12c_history) in
+  SM.client_count s 1 0 = 1 /\ SM.global_count s 0 = 1 /\
+  snd (SM.run (SM.init 2) SMP.d12c_history) =
+    [(SM.ONone, [SM.EConnected 1]); (SM.ONone, [SM.EConnected 2]); (SM.OBool true, [SM.ETopicAdded 0; SM.ESubscribed 1 0]);
+     (SM.OBool true, [SM.ETopicAdded 1; SM.ESubscribed 2 1]);
+     (SM.OBool false, [SM.ETopicRemoved 1; SM.EUnsubscribed 2 1; SM.EDrop 2; SM.EDisconnected 2])].
+Proof. exact SMP.d12c_fixed. Qed.
+
+Print Assumptions C12_bytesfilter_refines_window.
+Print Assumptions C12_bytesfilter_last_n.
+Print Assumptions C12_walker_each_pushed_once.
+Print Assumptions C12_walker_drained.
+Print Assumptions C12_walker_queue_order.
+Print Assumptions C12_walker_queue_order_revisit.
+Print Assumptions C12_walker_pushfront_front.
+Print Assumptions C12_walker_reset.
+Print Assumptions C12_refuted_walker_pushfront_pinned.
+Print Assumptions C12_timeheap_refines_live_entries.
+Print Assumptions C12_timeheap_windowed_sum.
+Print Assumptions C12_refuted_timeheap_clear_pinned.
+Print Assumptions C12_indexedstorage_refines_map.
+Print Assumptions C12_onchangemap_keyed_store.
+Print Assumptions C12_onchangemap_callbacks_mirror.
+Print Assumptions C12_onchangemap_changed_sees_contents.
+Print Assumptions C12_onchangemap_disabled_silent.
+Print Assumptions C12_submgr_global_is_sum.
+Print Assumptions C12_submgr_has_subscribers_is_sum.
+Print Assumptions C12_submgr_events_mirror_state.
+Print Assumptions C12_refuted_limit.
